@@ -4,7 +4,10 @@ properties.jsonl (every other property goes to not_applicable with the reason
 recorded in checks.json under "_not_claimed")."""
 import json, os
 ROOT = os.path.dirname(os.path.dirname(os.path.abspath(__file__)))
-cfg = json.load(open(os.path.join(ROOT, "checks.json")))
+cfg = {}
+for f in sorted(os.listdir(os.path.join(ROOT, "checks"))):
+    if f.endswith(".json"):
+        cfg[f[:-5]] = json.load(open(os.path.join(ROOT, "checks", f)))
 props = [json.loads(l) for l in open(os.path.join(ROOT, "properties.jsonl"))]
 not_claimed = cfg.get("_not_claimed", {})
 checks, na = [], []
